@@ -78,7 +78,8 @@ package ice
 //@ enumerate C04 calls ice.(*Agent).updateConnectionState in (*Agent).validateSelectedPair, (*Agent).setSelectedPair, (*Agent).connectivityChecks, (*Agent).startConnectivityChecks, (*Agent).Restart, newAgentWithConfig
 
 //@ func (*Agent).startConnectivityChecks$1
-//@   props C04
+//@   props C04 C17
+//@   site call startedFn#1 assert C17 pairs-formed-before-the-role-was-known-follow-it: pairsFollowRole(a) && (a.isControlling != 0) == isControlling
 //@   site call updateConnectionState#1 assert start-enters-checking: arg1 == ConnectionStateChecking
 
 // Where the liveness timeouts come from: a configured value (zero included: it
